@@ -10,6 +10,9 @@ import Xrl.Spec.JumpRatio
 import Xrl.Spec.Sums
 import Xrl.Spec.Interp2
 import Xrl.Spec.LBeta
+import Xrl.Spec.Invariants
+import Xrl.Spec.PhotoStrict
+import Xrl.Spec.GroupsText
 /-!
 # `spec.*` operations of the driver: the executable specifications in the `Float` reading
 
@@ -88,6 +91,17 @@ def dispatchSpec (T : Tables Float) (fn : String) (a : Array String) : Option St
   | "spec.CS_Total_Kissel", 2 => some (fmtE (Spec.CS_Total_Kissel T (pI a[0]!) (pF a[1]!)))
   | "spec.CSb_Total_Kissel", 2 => some (fmtE (Spec.CSb_Total_Kissel T (pI a[0]!) (pF a[1]!)))
   | "spec.LineEnergyLB", 1 => some (fmtE (Spec.LineEnergyLB T (pI a[0]!)))
+  | "spec.ratesNegative", 0 => some ("list " ++ toString (Spec.ratesNegative T))
+  | "spec.lbWeightsNegative", 0 => some ("list " ++ toString (Spec.lbWeightsNegative T))
+  | "spec.rateWithoutEnergy", 0 => some ("list " ++ toString (Spec.rateWithoutEnergy T))
+  | "spec.fallbackCases", 0 => some ("list " ++ toString (Spec.fallbackCases T))
+  | "spec.LineEnergyText", 2 => some (fmtE (Spec.LineEnergyText T (pI a[0]!) (pI a[1]!)))
+  | "spec.LineEnergyLBText", 1 => some (fmtE (Spec.LineEnergyLBText T (pI a[0]!)))
+  | "spec.groupRange", 2 => some (match Spec.groupRange T (pI a[0]!) (pI a[1]!) with | none => "none" | some (lo, hi) => "range " ++ fmtF lo ++ " " ++ fmtF hi)
+  | "spec.augerInputsBad", 0 => some ("list " ++ toString (Spec.augerInputsBad T))
+  | "spec.augerRateBad", 1 => some ("list " ++ toString (Spec.augerRateBad (pF a[0]!) T))
+  | "spec.photoUndefined", 2 => some ("list " ++ toString (Spec.photoUndefined T (pI a[0]!) (pF a[1]!)))
+  | "spec.CSb_Photo_Total_strict", 2 => some (fmtE (Spec.CSb_Photo_Total_strict T (pI a[0]!) (pF a[1]!)))
   | "spec.weightFailures", 0 => some ("shape " ++ toString ((Spec.weightFailures T).map (fun p => p.1 ++ ":" ++ toString p.2)))
   | "spec.shapeFailures2", 0 => some ("shape " ++ toString ((Spec.shapeFailures2 T).map (fun p => p.1 ++ ":" ++ toString p.2.1 ++ ":" ++ toString p.2.2)))
   | _, _ => none
